@@ -267,7 +267,7 @@ PROPS["C18"] = {
                    B("bounded_datalayer_histories_4", "datalayer_histories:4",
                      "BOUNDED stand-in for MerkleBlob::{insert, delete, batch_insert} (outside Verus's subset): every operation history of length <= 4 over a 21-operation alphabet (keys 1..8; duplicate keys and hashes, deletes down to 0/1/2 leaves, free-index reuse, batches of 0..5) on the real crate against a plain map with unique keys and hashes: the verdict of every insert / delete / upsert / batch_insert, content, check_integrity, failed-op-unchanged, reload, independent root, inclusion proofs", tier="quick-only"),
                    B("bounded_datalayer_histories_6", "datalayer_histories:6",
-                     "BOUNDED: as above with history length <= 6", tier="thorough-only", timeout=3600),
+                     "BOUNDED: as above with history length <= 6", tier="thorough-only", timeout=7200),
                    B("bounded_datalayer_prefixed_4", "datalayer_histories_prefixed:4",
                      "BOUNDED: the same exploration started from five populated trees (5, 7 and 8 leaves from batches, 3 leaves one by one, 3 leaves plus a new root): every history of at most 4 further operations", tier="quick-only"),
                    B("bounded_datalayer_prefixed_5", "datalayer_histories_prefixed:5",
